@@ -51,18 +51,40 @@ Definition is_zero (b : buint) : bool :=
   | Large v => forallb (fun x => x =? 0) v
   end.
 
-(* try_as_usize on a 64-bit target (usize = u64): the Large arm looks at
-   v.len(), not at the number of significant limbs *)
+(* significant_len: number of limbs excluding leading (most significant) zero
+   limbs, at least 1:
+   value.iter().rposition(|limb| *limb != 0).map_or(1, |idx| idx + 1) *)
+Fixpoint rpos_nonzero (v : list N) : option nat :=
+  match v with
+  | [] => None
+  | x :: r =>
+    match rpos_nonzero r with
+    | Some i => Some (S i)
+    | None => if x =? 0 then None else Some O
+    end
+  end.
+
+Definition significant_len (b : buint) : nat :=
+  match b with
+  | Small _ => 1%nat
+  | Large v => match rpos_nonzero v with Some i => S i | None => 1%nat end
+  end.
+
+Definition hd0 (v : list N) : N := match v with [] => 0 | x :: _ => x end.
+
+(* self.get(0) *)
+Definition get0 (b : buint) : N :=
+  match b with Small n => n | Large v => hd0 v end.
+
+(* try_as_usize on a 64-bit target (usize = u64), as repaired by 2c2d128:
+   Large(_) => if self.significant_len() == 1 { self.get(0) } else { out of range } *)
 Definition try_as_usize (b : buint) : res N :=
   match b with
   | Small n => Ok n
-  | Large [x] => Ok x
-  | Large _ => Err EOutOfRange
+  | Large _ => if Nat.eqb (significant_len b) 1 then Ok (get0 b) else Err EOutOfRange
   end.
 
 (* ---------------- bitwise and / or / xor ---------------- *)
-
-Definition hd0 (v : list N) : N := match v with [] => 0 | x :: _ => x end.
 
 (* result = b.clone(); result[i] &= a.get(i).unwrap_or(0) *)
 Fixpoint and_ll (a b : list N) : list N :=
@@ -173,12 +195,3 @@ Fixpoint shr_loop (fuel : nat) (n : N) (x : buint) : buint :=
 Definition rshift_n (a rhs : buint) : res buint :=
   do n <- try_as_usize rhs;
   Ok (shr_loop (S (64 * length (make_large a))) n a).
-
-(* classifier of the known defect: a Large with more than one limb whose
-   value nevertheless fits in a usize (leading zero limbs, e.g. the result
-   of (2^64+5) - 2^64) is rejected by try_as_usize *)
-Definition known_C10_noncanonical (b : buint) : bool :=
-  match b with
-  | Small _ => false
-  | Large v => Nat.ltb 1 (length v) && (val_limbs v <? W)
-  end.
